@@ -1508,6 +1508,12 @@ func (env *LEnv) FunCall(fun, args *LVal) *LVal {
 // returned.
 func (env *LEnv) EvalContext(ctx context.Context, v *LVal) *LVal {
 	defer env.Runtime.beginEval()()
+	// See Eval: the environment's current location is put back when the
+	// sub-form is done, so an operator that evaluates a sub-form with
+	// EvalContext and then rejects its own arguments is located at its own
+	// form, as it is with Eval.
+	prev := env.loc
+	defer func() { env.loc = prev }()
 	return env.eval(ctx, v)
 }
 
